@@ -59,6 +59,18 @@ pub fn build_store(shape: &Value, dir: &std::path::Path, big: bool) -> Annotatio
             }
         }
     }
+    // a few annotations for the iterating / searching / querying readers (they do not change how members are serialised)
+    if nres > 0 {
+        for (i, (b, e)) in [(0usize, 3usize), (1, 2), (4, 7), (0, 3)].iter().enumerate() {
+            store
+                .annotate(
+                    AnnotationBuilder::new()
+                        .with_id(format!("p{}", i))
+                        .with_target(SelectorBuilder::textselector("r1", Offset::simple(*b, *e))),
+                )
+                .expect("harness: annotate");
+        }
+    }
     // write everything once so that stand-off files exist and members are unchanged
     store.save().expect("harness: save");
     // then mark the members that must be 'changed' by touching them
@@ -130,6 +142,7 @@ pub fn files_state(shape: &Value, dir: &std::path::Path, big: bool) -> Value {
 pub fn run_free(shape: &Value, ops: &[Value], big: bool, dir: &std::path::Path) -> Value {
     let store = build_store(shape, dir, big);
     let n = ops.len();
+    let alone: Vec<String> = ops.iter().map(|op| if op["op"] == "par" { par_digest(&store) } else { String::new() }).collect();
     let tags: Arc<Mutex<Vec<Vec<String>>>> = Arc::new(Mutex::new(vec![vec![]; n]));
     {
         let tags = tags.clone();
@@ -158,7 +171,7 @@ pub fn run_free(shape: &Value, ops: &[Value], big: bool, dir: &std::path::Path) 
     let t = tags.lock().unwrap();
     let leftovers = leftover_files(dir);
     json!({"has": true, "threads": (0..n).map(|i| json!({"tags": t[i], "forms": outs[i]})).collect::<Vec<_>>(),
-           "files": files_state(shape, dir, big), "leftovers": leftovers})
+           "files": files_state(shape, dir, big), "leftovers": leftovers, "alone": alone})
 }
 
 /// files in the work directory that are neither the store nor a stand-off member
@@ -171,7 +184,36 @@ fn leftover_files(dir: &std::path::Path) -> Vec<String> {
     v
 }
 
+/// a reader that only iterates, searches and queries (sequentially and through the parallel adaptors): a digest of what it saw
+fn par_digest(store: &AnnotationStore) -> String {
+    use rayon::prelude::*;
+    let mut out = String::new();
+    let mut hs: Vec<usize> = store.annotations().parallel().map(|a| a.handle().as_usize() * 31 + a.text_simple().map(|t| t.len()).unwrap_or(99)).collect();
+    hs.sort();
+    out.push_str(&format!("A{:?}", hs));
+    let mut ds: Vec<(usize, usize)> = store.data().parallel().map(|d| (d.set().handle().as_usize(), d.annotations().count())).collect();
+    ds.sort();
+    out.push_str(&format!("D{:?}", ds));
+    let seq: Vec<usize> = store.annotations().map(|a| a.handle().as_usize() * 31 + a.text_simple().map(|t| t.len()).unwrap_or(99)).collect();
+    out.push_str(&format!("S{:?}", seq));
+    if let Some(r) = store.resources().next() {
+        let found: Vec<(usize, usize)> = r.find_text("b").map(|t| (t.begin(), t.end())).collect();
+        out.push_str(&format!("F{:?}", found));
+        let rel: usize = r.annotations().map(|a| a.related_text(TextSelectionOperator::overlaps()).count()).sum();
+        out.push_str(&format!("R{}", rel));
+    }
+    let q: Result<Query, _> = "SELECT ANNOTATION ?a WHERE RESOURCE \"r1\";".try_into();
+    match q.and_then(|q| store.query(q).map(|it| it.count())) {
+        Ok(n) => out.push_str(&format!("Q{}", n)),
+        Err(e) => out.push_str(&format!("QERR{}", e)),
+    }
+    out
+}
+
 fn run_op(store: &AnnotationStore, op: &Value) -> Value {
+    if op["op"] == "par" {
+        return json!([par_digest(store)]);
+    }
     // the forms in which the stand-off members appear in the output of this operation
     let text = match op["op"].as_str().unwrap() {
         "store" => store.to_json_string(store.config()).unwrap_or_else(|e| format!("ERROR {}", e)),
@@ -206,6 +248,7 @@ fn run_op(store: &AnnotationStore, op: &Value) -> Value {
 pub fn run(shape: &Value, ops: &[Value], schedule: &[usize], dir: &std::path::Path) -> Value {
     let store = build_store(shape, dir, false);
     let n = ops.len();
+    let alone: Vec<String> = ops.iter().map(|op| if op["op"] == "par" { par_digest(&store) } else { String::new() }).collect();
     let state = Arc::new((Mutex::new(Sched { turn: usize::MAX, parked: vec![false; n], finished: vec![false; n], tags: vec![vec![]; n] }), Condvar::new()));
     {
         let state = state.clone();
@@ -280,5 +323,5 @@ pub fn run(shape: &Value, ops: &[Value], schedule: &[usize], dir: &std::path::Pa
     verif::set_yield_hook(None);
     let s = state.0.lock().unwrap();
     json!({"has": true, "threads": (0..n).map(|i| json!({"tags": s.tags[i], "forms": outs[i]})).collect::<Vec<_>>(),
-           "files": files_state(shape, dir, false), "leftovers": leftover_files(dir)})
+           "files": files_state(shape, dir, false), "leftovers": leftover_files(dir), "alone": alone})
 }
